@@ -597,8 +597,16 @@ impl BasicPacker {
                 from: "usize",
                 source: err,
             })?;
+        // the size of a pack file (and all offsets within) must fit into u32
+        let size = (u64::from(self.size) + u64::from(len))
+            .try_into()
+            .map_err(|err| PackerErrorKind::Conversion {
+                to: "u32",
+                from: "u64",
+                source: err,
+            })?;
         self.file.add(data);
-        self.size += len;
+        self.size = size;
         Ok(len)
     }
 
